@@ -131,6 +131,15 @@ CLAIMED = {
         design="§4 C15", technique="Coq decision procedure as exact oracle + Coq proof (crossing soundness, transfer, guard table) + model/implementation correspondence",
         note="Bentley-Ottmann and qhull are validated oracles; cycles ON the decision boundary (touching only, straight corners) are generated but not judged; "
              "recorded observation: such touching cycles can raise AssertionError from the vendored sweep; known finding polygon-collinear-first-corner."),
+    "C19": dict(
+        text="Theorems on a datatype model of gsd_shape_spec / from_gsd_type_shapes (all ten classes, opaque geometry, constructor facts as section "
+             "parameters): the round trip returns the same shape (a Polygon holding a convex cycle is promoted to ConvexPolygon), missing/unknown type "
+             "raises; the executable class dispatch returns, for the spec each class writes, that class or a subclass. Correspondence: the dispatch "
+             "model is run against from_gsd_type_shapes on every generated spec; actual round trips through GSD and eval(repr(.)) for shapes of all ten "
+             "classes off-origin (both polygon orientations, tilted planes, voxel polyhedra): class, vertices/faces/radii/semi-axes, centre and normal "
+             "(repr), measures; to_json keys and AttributeError; to_hoomd keys and values against a freshly constructed centred shape.",
+        design="§4 C19", technique="Coq proof on a datatype model of the codec + executable dispatch model run against the implementation + round-trip correspondence",
+        note="repr, to_json and to_hoomd are decided by correspondence only (partial); known finding spheropolygon-to_hoomd-not-centred (pinned by the suite)."),
 }
 
 REASON_TODO = "check not built yet (work in progress this round)"
